@@ -396,7 +396,7 @@ Proof. intros Hi Hm. unfold sub. rewrite index_val by (rewrite firstn_length, sk
   rewrite nth_first by exact Hi. rewrite nth_skip. reflexivity. Qed.
 
 Lemma valid_cfg_facts g : valid_cfg g = true ->
-  (length (g_msg_types g) <= 30)%nat /\ (1 <= length (g_vendor_ids g))%nat /\ (length (g_vendor_ids g) <= 16)%nat /\
+  (length (g_msg_types g) <= 30)%nat /\ (1 <= length (g_vendor_ids g))%nat /\ (length (g_vendor_ids g) <= 255)%nat /\
   forall v, In v (g_vendor_ids g) -> v_format v = 0 \/ v_format v = 1.
 Proof.
   unfold valid_cfg. intros H. apply andb_true_iff in H as [H H4]. apply andb_true_iff in H as [H H3].
